@@ -8,12 +8,11 @@ Sgn(x)  == IF x < 0 THEN -1 ELSE IF x > 0 THEN 1 ELSE 0
 Min2(a, b) == IF a <= b THEN a ELSE b
 Max2(a, b) == IF a >= b THEN a ELSE b
 
-RECURSIVE SumSeq(_)
-SumSeq(s) == IF s = <<>> THEN 0 ELSE Head(s) + SumSeq(Tail(s))
+\* folds of the CommunityModules are evaluated by Java overrides (no deep recursion on large sets)
+SumSeq(s) == FoldLeft(LAMBDA acc, x : acc + x, 0, s)
 
 \* sum of f[x] over x in S (f a function or sequence)
-RECURSIVE SumOver(_, _)
-SumOver(f, S) == IF S = {} THEN 0 ELSE LET x == CHOOSE y \in S : TRUE IN f[x] + SumOver(f, S \ {x})
+SumOver(f, S) == FoldSet(LAMBDA x, acc : f[x] + acc, 0, S)
 
 MinSet(S) == CHOOSE x \in S : \A y \in S : x <= y
 MaxSet(S) == CHOOSE x \in S : \A y \in S : x >= y
